@@ -31,13 +31,18 @@ class Obligation:
 
 
 class State:
-    def __init__(self, env=None, pc=None, decisions=None):
+    def __init__(self, env=None, pc=None, decisions=None, assumed=None):
         self.env = env if env is not None else {}
         self.pc = pc if pc is not None else []
         self.decisions = decisions if decisions is not None else {}
+        self.assumed = assumed if assumed is not None else set()  # ids of pc entries that are assumed facts, not branch decisions
 
     def fork(self):
-        return State(dict(self.env), list(self.pc), dict(self.decisions))
+        env = dict(self.env)
+        for k, v in env.items():
+            if isinstance(v, ObjUnderConstruction):
+                env[k] = v.copy()
+        return State(env, list(self.pc), dict(self.decisions), set(self.assumed))
 
 
 class Outcome:
@@ -73,6 +78,18 @@ class Interp:
         self.covers: list[tuple[str, list]] = []
         self.extra_globals: dict = {}
         self.mode = "code"  # or "spec"
+        self.loop_ord: dict = {}
+        self.comp_ord: dict = {}
+
+    def index_function(self, fnode):
+        """syntactic ordinals of loops and comprehensions (source order) - sidecar contracts are keyed by them"""
+        loops = [n for n in ast.walk(fnode) if isinstance(n, (ast.For, ast.While))]
+        loops.sort(key=lambda n: (n.lineno, n.col_offset))
+        self.loop_ord = {id(n): i for i, n in enumerate(loops)}
+        comps = [n for n in ast.walk(fnode) if isinstance(n, (ast.ListComp, ast.GeneratorExp, ast.SetComp, ast.DictComp))]
+        comps.sort(key=lambda n: (n.lineno, n.col_offset))
+        self.comp_ord = {id(n): i for i, n in enumerate(comps)}
+        self.n_loops, self.n_comps = len(loops), len(comps)
 
     # ------------------------------------------------------------------ obligations
     def oblige(self, name, st, goal, kind="ensures", line=None):
@@ -88,6 +105,7 @@ class Interp:
         elif isinstance(fact, bool):
             fact = z3.BoolVal(fact)
         st.pc.append(fact)
+        st.assumed.add(fact.get_id())
 
     # ------------------------------------------------------------------ decisions
     def decide(self, cond, st) -> bool:
@@ -404,6 +422,10 @@ class Interp:
             return getattr_str(obj.value, attr)
         if isinstance(obj, SV):
             return self.getattr_sv(obj, attr, st)
+        if isinstance(obj, ObjUnderConstruction):
+            if attr in obj.fields:
+                return obj.fields[attr]
+            raise Unsupported(f"attribute {attr} read before it is set on the object under construction")
         if isinstance(obj, Closure) and attr == "__code__":
             return Record("code", {"co_name": obj.name, "_func": obj})
         if isinstance(obj, str):
@@ -470,8 +492,12 @@ class Interp:
         elif isinstance(target, (ast.Tuple, ast.List)):
             if isinstance(value, Record):
                 value = tuple(value.fields.values())
+            if isinstance(value, SV) and value.ty.kind == "seq":
+                n = len(target.elts)
+                st.pc.append(z3.Length(value.t) == n)  # TypeError/ValueError on arity mismatch not modelled
+                value = [SV(value.ty.args[0], value.t[i]) for i in range(n)]
             if isinstance(value, SV):
-                raise Unsupported("unpacking a symbolic sequence")
+                raise Unsupported("unpacking a symbolic value")
             vals = list(value)
             if len(vals) != len(target.elts):
                 raise Unsupported("unpack arity")
@@ -509,9 +535,11 @@ class Interp:
             return out_d if kind == "dict" else out_l
         # symbolic: define Comp_site(j) by recursion on the prefix length
         self.comp_no += 1
-        ordinal = self.comp_no - 1
+        ordinal = self.comp_ord.get(id(n), -1)
         j = core.fresh(TInt, "cj")
         elem = it.at(SV(TInt, j.t - 1))
+        rng = z3.And(j.t >= 1, j.t <= as_int(it.length()).t)
+        inner.pc.append(rng)
         self.bind_target(g.target, elem, inner)
         npc = len(inner.pc)
         conds = []
@@ -525,11 +553,9 @@ class Interp:
         else:
             ev_ = lift(self.ev(n.elt, inner))
             rty = TSeq(ev_.ty)
-        side = inner.pc[npc:]
-        if side:
-            # facts assumed while evaluating the element expression (callee postconditions)
-            # are only valid per element; keep them out of the definition, mention as assumption
-            pass
+        # facts assumed while evaluating the element expression (callee postconditions): valid for every
+        # element in range; instantiated together with the definition
+        side = [z3.Implies(rng, f) for f in inner.pc[npc:]]
         name = f"comp[{self.qualname}#{ordinal}@{next(core._FRESH)}]"
         F = z3.Function(name, z3.IntSort(), rty.sort())
         prev = F(j.t - 1)
@@ -540,7 +566,7 @@ class Interp:
             step = z3.Concat(prev, z3.Unit(ev_.t))
             base = z3.Empty(rty.sort())
         body = z3.If(j.t <= 0, base, z3.If(keep, step, prev))
-        core.SPEC_DEFS[name] = core.SpecDef(F, [j.t], body)
+        core.SPEC_DEFS[name] = core.SpecDef(F, [j.t], body, side)
         n_t = as_int(it.length()).t
         result = SV(rty, F(n_t))
         # sidecar lemma: comp(j) == spec(j), proved by induction and then assumed at len
@@ -598,6 +624,8 @@ class Interp:
         return self.call(f, args, kwargs, st, n)
 
     def call(self, f, args, kwargs, st, node=None):
+        if isinstance(f, PyBuiltin) and isinstance(getattr(builtins, f.name, None), type) and issubclass(getattr(builtins, f.name), BaseException):
+            return ExcVal(f.name, args, kwargs)
         if isinstance(f, PyBuiltin):
             return self.call_builtin(f.name, args, kwargs, st, node)
         if isinstance(f, FuncRef):
@@ -685,10 +713,10 @@ class Interp:
         if f.qualname and f.qualname in registry.CONTRACTS:
             return self.call_contract(registry.CONTRACTS[f.qualname], args, kwargs, st)
         if isinstance(node, ast.Lambda):
-            s2 = State(env, st.pc, st.decisions)
+            s2 = State(env, st.pc, st.decisions, st.assumed)
             return self.ev(node.body, s2)
         # inline non-recursive nested def: must be single-path
-        s2 = State(env, list(st.pc), st.decisions)
+        s2 = State(env, list(st.pc), st.decisions, st.assumed)
         outs = self.exec_block(node.body, s2)
         rets = [o for o in outs if o.kind in ("return", "fall")]
         raises = [o for o in outs if o.kind == "raise"]
@@ -773,7 +801,7 @@ class Interp:
     # contract calls --------------------------------------------------------
     def signature(self, c):
         """(names, defaults) from the real source if available, else from the contract."""
-        if not c.assumed:
+        if True:
             try:
                 fi = extract.find_function(c.qualname)
                 a = fi.node.args
@@ -785,6 +813,8 @@ class Interp:
                     names.append(kw.arg)
                     if d is not None:
                         defaults[kw.arg] = d
+                if list(c.params)[:1] == ["self"] and names[:1] != ["self"]:
+                    names = ["self"] + names  # staticmethod / protocol called through an instance
                 return names, defaults, fi
             except extract.ExtractError:
                 pass
@@ -823,6 +853,12 @@ class Interp:
                 raise Unsupported(f"contract {c.qualname}: parameter {nme} not bound")
             v = bound[nme]
             t = tystr.lstrip("?")
+            if t.startswith("Rec:"):
+                if not isinstance(v, Record):
+                    raise Unsupported(f"calling {c.qualname}: argument {nme} is not a record")
+                env[nme] = v
+                uf_args.extend(record_terms(v))
+                continue
             if t.startswith(("Fn:", "Py", "Enum:")) or t == "any":
                 env[nme] = v
                 if t.startswith("Enum:") or t == "PyStr":
@@ -841,7 +877,7 @@ class Interp:
             env[nme] = sv
             uf_args.append(sv)
         uf_args = [a for a in uf_args if a is not None]
-        cst = State(env, st.pc, st.decisions)
+        cst = State(env, st.pc, st.decisions, st.assumed)
         for g, gexpr in c.where.items():
             cst.env[g] = self.ev_contract_expr(gexpr, cst)
         if verify_requires and self.mode == "code":
@@ -859,16 +895,10 @@ class Interp:
         if c.ret is not None:
             rt = c.ret
             if rt.startswith("Rec:"):
-                rn = rt[4:]
-                fields = {}
-                for fname, ftys in core.RECORDS[rn].items():
-                    fty = parse_ty(ftys) if not ftys.startswith("Py") else None
-                    if fty is None:
-                        fields[fname] = None
-                        continue
-                    fn = core.uf(f"{c.qualname}.{fname}", *[a.ty.sort() for a in uf_args], fty.sort())
-                    fields[fname] = SV(fty, fn(*[a.t for a in uf_args]))
-                result = Record(rn, fields)
+                def mk(path, fty):
+                    fn = core.uf(f"{c.qualname}.{path}", *[a.ty.sort() for a in uf_args], fty.sort())
+                    return SV(fty, fn(*[a.t for a in uf_args]))
+                result = make_record(rt[4:], mk)
             elif rt.startswith("Py"):
                 result = None
             else:
@@ -943,7 +973,7 @@ class Interp:
         if name in ("set", "frozenset"):
             if not args:
                 return set() if name == "set" else frozenset()
-            v = args[0]
+            v = unwrap_opt(args[0])
             if isinstance(v, SV) and v.ty.kind == "set":
                 return v
             if isinstance(v, SV) and v.ty.kind == "seq":
@@ -1521,8 +1551,7 @@ class Interp:
         return None
 
     def for_symbolic(self, s, it: SymIter, st):
-        ordinal = self.loop_no
-        self.loop_no += 1
+        ordinal = self.loop_ord.get(id(s), -1)
         spec = self.loop_spec(ordinal)
         if spec is None:
             raise Unsupported(f"loop #{ordinal} at line {s.lineno} over a symbolic collection needs a sidecar invariant")
@@ -1595,8 +1624,7 @@ class Interp:
         return outs
 
     def st_While(self, s, st):
-        ordinal = self.loop_no
-        self.loop_no += 1
+        ordinal = self.loop_ord.get(id(s), -1)
         spec = self.loop_spec(ordinal)
         if spec is None:
             raise Unsupported(f"while loop #{ordinal} at line {s.lineno} needs a sidecar invariant")
@@ -1660,6 +1688,37 @@ class Interp:
         return outs
 
 
+def make_record(rn, mk, path=""):
+    fields = {}
+    for fname, ftys in core.RECORDS[rn].items():
+        fp = f"{path}{fname}"
+        if ftys.startswith("Py"):
+            fields[fname] = None
+        elif ftys.startswith("Rec:"):
+            fields[fname] = make_record(ftys[4:], mk, fp + ".")
+        else:
+            fields[fname] = mk(fp, parse_ty(ftys))
+    return Record(rn, fields)
+
+
+def record_terms(r):
+    out = []
+    for v in r.fields.values():
+        if isinstance(v, Record):
+            out.extend(record_terms(v))
+        elif isinstance(v, SV):
+            out.append(v)
+        elif isinstance(v, (str, int, float, bool)) and v is not None:
+            out.append(lift(v))
+    return out
+
+
+def unwrap_opt(v):
+    if isinstance(v, SV) and v.ty.kind == "opt":
+        return SV(v.ty.args[0], v.ty.sort().val(v.t))
+    return v
+
+
 class StarArgs:
     def __init__(self, it, value):
         self.it, self.value = it, value
@@ -1673,6 +1732,14 @@ class TypeOf:
 class ObjUnderConstruction:
     def __init__(self, sort):
         self.sort, self.fields = sort, {}
+
+    def copy(self):
+        o = ObjUnderConstruction(self.sort)
+        o.fields = dict(self.fields)
+        return o
+
+    def __repr__(self):
+        return f"<new {self.sort}>"
 
 
 class DefaultDict:
